@@ -270,3 +270,73 @@ func (r *Report) Finish(start time.Time, explanation string, nd []string, truste
 	}
 	return 0
 }
+
+// child creates a scratch report that shares the configuration label.
+func (r *Report) child() *Report {
+	c := NewReport(r.Prop, r.Tier)
+	c.config = r.config
+	return c
+}
+
+// failingRules: rule ids with at least one failed obligation that is not a known finding.
+func (r *Report) failingRules() map[string]bool {
+	known := loadKnown()
+	out := map[string]bool{}
+	for _, o := range r.Obs {
+		if o.OK {
+			continue
+		}
+		isKnown := false
+		for _, k := range known.Known {
+			if k.Property == r.Prop && k.Rule == o.Rule && k.Construct == o.Construct {
+				isKnown = true
+			}
+		}
+		if !isKnown {
+			out[o.Rule] = true
+		}
+	}
+	return out
+}
+
+// replaceRules swaps the obligations of the given rules for those of another run.
+func (r *Report) replaceRules(rules []string, from *Report) {
+	set := map[string]bool{}
+	for _, x := range rules {
+		set[x] = true
+	}
+	var keep []Ob
+	for _, o := range r.Obs {
+		if !set[o.Rule] {
+			keep = append(keep, o)
+		}
+	}
+	for _, o := range from.Obs {
+		if set[o.Rule] {
+			o.Msg += " [on the normal form with new helpers inlined]"
+			keep = append(keep, o)
+		}
+	}
+	r.Obs = keep
+	for k, v := range from.Floors {
+		if set[k] {
+			r.Floors[k] = v
+		}
+	}
+}
+
+// absorb merges a scratch report into r.
+func (r *Report) absorb(c *Report) {
+	for _, o := range c.Obs {
+		r.add(o)
+	}
+	for k := range c.FuncsAnalysed {
+		r.FuncsAnalysed[k] = true
+	}
+	r.Sites += c.Sites
+	r.Paths += c.Paths
+	r.Notes = append(r.Notes, c.Notes...)
+	for k, v := range c.Floors {
+		r.Floors[k] = v
+	}
+}
